@@ -161,7 +161,23 @@ def gen_plain(rng, depth):
 def gen_spec(rng):
     t = rng.choice(['plain', 'plain', 'mesh', 'model', 'model', 'field',
                     'field', 'tx', 'tx', 'rx', 'survey', 'survey',
-                    'simulation', 'nested'])
+                    'simulation', 'nested', 'custom', 'foreign'])
+    if t == 'custom':
+        # an instance of a user class registered with the documented
+        # decorator - at the time it is first used, i.e. possibly after the
+        # first save of the session
+        return {'t': 'custom', 'seed': rng.randint(0, 10**6)}
+    if t == 'foreign':
+        # a dict that looks like a serialised object of an unknown class
+        # (written by another version / another program), followed by
+        # ordinary emg3d objects in the same dictionary
+        return {'t': 'dict', 'items': {
+            'aforeign': {'t': 'foreign', 'seed': rng.randint(0, 10**6)},
+            'zmesh': {'t': 'mesh', 'grid': gen.gen_grid(rng, 2, 3,
+                                                        even=False)},
+            'ztx': {'t': 'tx', 'cls': 'TxElectricPoint', 'fmt': 'point',
+                    'seed': rng.randint(0, 10**6), 'strength': 1.0,
+                    'length': None}}}
     if t == 'plain':
         return gen_plain(rng, 3)
     if t == 'nested':
@@ -235,6 +251,12 @@ def build(spec, cache):
         if spec['nan'] and spec['dtype'] != 'int64':
             a.flat[0] = np.nan
         out = a.astype(spec['dtype'])
+    elif t == 'custom':
+        out = _station_class()(float(g.uniform(-1, 1)),
+                               g.standard_normal(3))
+    elif t == 'foreign':
+        out = {'__class__': 'ClassOfAnotherProgram',
+               'value': float(g.uniform()), 'arr': g.standard_normal(2)}
     elif t == 'mesh':
         out = gen.build_grid(spec['grid'])
     elif t == 'model':
@@ -320,6 +342,28 @@ def build(spec, cache):
         raise ValueError(t)
     cache[key] = out
     return out
+
+
+def _station_class():
+    """A user class, registered with emg3d's decorator on first use."""
+    import emg3d
+    if 'Station' in emg3d.utils._KNOWN_CLASSES:
+        return emg3d.utils._KNOWN_CLASSES['Station']
+
+    @emg3d.utils._known_class
+    class Station:
+        def __init__(self, height, position):
+            self.height = height
+            self.position = np.asarray(position, dtype=float)
+
+        def to_dict(self, copy=False):
+            return {'__class__': 'Station', 'height': self.height,
+                    'position': self.position.copy()}
+
+        @classmethod
+        def from_dict(cls, inp):
+            return cls(inp['height'], inp['position'])
+    return Station
 
 
 # ======================================================================
@@ -555,6 +599,9 @@ class C17(Machine):
                                     f'{type(e).__name__}: {e}',
                                     quantity=fmt, op=opk)
             for w in wl:
+                if 'Could not de-serialize <aforeign>' in str(w.message):
+                    ctx.stats.probe('foreign_entry_skipped')
+                    continue       # expected: stays a dictionary
                 if 'Could not de-serialize' in str(w.message):
                     raise Violation(
                         'roundtrip',
